@@ -29,7 +29,8 @@ type IdentKind int
 const (
 	IdentExtended  IdentKind = iota // extended_identifier: type, relation, restriction and rewrite names
 	IdentKeywordOK                  // identifier: IDENTIFIER or one of the six keywords (module names)
-	IdentPlain                      // IDENTIFIER only, minus CONDITION_DEF type words (condition and parameter names)
+	IdentPlain                      // IDENTIFIER only, minus CONDITION_DEF type words (condition names)
+	IdentParam                      // condition parameter names: as IdentPlain, and the six keyword names as well (inside a condition the words module, type, ... are ordinary identifiers)
 )
 
 func isKeywordName(s string) bool {
@@ -69,6 +70,9 @@ func Ident(t *rapid.T, kind IdentKind, rich bool, label string) string {
 			continue
 		}
 		if kind == IdentPlain && (reservedCondMode[s] || isKeywordName(s) || strings.ContainsAny(s, "./")) {
+			continue
+		}
+		if kind == IdentParam && (reservedCondMode[s] || strings.ContainsAny(s, "./")) {
 			continue
 		}
 		if kind == IdentKeywordOK && strings.ContainsAny(s, "./") {
@@ -141,7 +145,7 @@ func UniqueIdent(t *rapid.T, kind IdentKind, rich bool, used map[string]bool, la
 		if i > 6 {
 			s += rapid.StringMatching(`[a-z0-9]{2}`).Draw(t, label+"_u")
 		}
-		if !used[s] && !reservedDefault[s] && (kind != IdentPlain || !reservedCondMode[s]) {
+		if !used[s] && !reservedDefault[s] && ((kind != IdentPlain && kind != IdentParam) || !reservedCondMode[s]) {
 			used[s] = true
 			return s
 		}
